@@ -286,6 +286,20 @@ func (x *runCtx) event(shape string) error {
 	case "J":
 		x.jump = true
 		return nil
+	case "M": // an onMetaData message (encoders repeat it; its audiosamplerate is the encoder's idea of the output rate, e.g. the SBR rate of HE-AAC, not necessarily the AudioSpecificConfig's)
+		num := func(k string, v float64) ref.APair {
+			return ref.APair{Key: k, Val: ref.AVal{Kind: ref.ANumber, Num: v}}
+		}
+		obj := ref.AVal{Kind: ref.AObject, Pairs: []ref.APair{num("width", 320), num("height", 240), num("framerate", 25)}}
+		switch a {
+		case "aac", "aac48":
+			obj.Pairs = append(obj.Pairs, num("audiocodecid", 10), num("audiosamplerate", 22050), num("audiosamplesize", 16))
+		case "g711a":
+			obj.Pairs = append(obj.Pairs, num("audiocodecid", 7), num("audiosamplerate", 8000))
+		}
+		b := ref.AEncode(ref.AVal{Kind: ref.AString, Str: "@setDataFrame"})
+		b = append(b, ref.AEncode(ref.AVal{Kind: ref.AString, Str: "onMetaData"})...)
+		return x.send(18, x.ts, append(b, ref.AEncode(obj)...))
 	}
 	_ = a
 	return fmt.Errorf("unknown shape %s", shape)
@@ -302,7 +316,7 @@ func shapesFor(c codecs) []string {
 	if c.Audio == "aac" || c.Audio == "aac48" {
 		s = append(s, "Ash2")
 	}
-	return append(s, "J")
+	return append(s, "J", "M")
 }
 
 func (x *runCtx) join() error {
